@@ -164,13 +164,45 @@ def run(ctx):
     ctx.assume("counting invariant over arbitrary lock/unlock sequences is not decided (value-level)")
 
 
+def flag_set(body, op, depth=0):
+    """the set of LockFlags constant names an operand denotes: a named constant, or `A | B` / `A.union(B)` of such; None if unknown"""
+    ats = body.origins(op)
+    if not ats or depth > 3:
+        return None
+    out = set()
+    for a in ats:
+        if a.kind == "const" and "LockFlags::" in str(a.what):
+            out.add(str(a.what).rsplit("::", 1)[1])
+        elif a.kind == "call" and re.search(r"BitOr(<[^>]*>)?>::bitor$|LockFlags::union$", a.what):
+            for arg in a.extra["args"][:2]:
+                sub = flag_set(body, arg, depth + 1)
+                if sub is None:
+                    return None
+                out |= sub
+        else:
+            return None
+    return out or None
+
+
 def flag_guard(body, flag, want):
-    """branch on LockFlags::contains(_, <flag>)"""
+    """branch that establishes `flag` is set (want=True) / not set (want=False) in a LockFlags value, in any of the bitflags forms:
+    contains(S): true => every flag of S is set; false => `flag` not set only if S == {flag}
+    intersects(S): false => no flag of S is set; true => `flag` set only if S == {flag}"""
     edges, blocks = [], []
-    for bb, tru, fal, si in body.call_bool_guards(r"LockFlags::contains$"):
+    for bb, tru, fal, si in body.call_bool_guards(r"LockFlags::(contains|intersects)$"):
         for a in si["atoms"]:
-            if a.kind == "call" and a.what.endswith("LockFlags::contains"):
-                if any(x.kind == "const" and str(x.what).endswith("LockFlags::" + flag) for x in body.origins(a.extra["args"][1])):
-                    edges.append((bb, tru if want else fal))
-                    blocks.append(bb)
+            if a.kind != "call" or not re.search(r"LockFlags::(contains|intersects)$", a.what):
+                continue
+            fs = flag_set(body, a.extra["args"][1])
+            if not fs or flag not in fs:
+                continue
+            is_contains = a.what.endswith("::contains")
+            if is_contains and want:
+                edges.append((bb, tru)); blocks.append(bb)
+            elif is_contains and not want and fs == {flag}:
+                edges.append((bb, fal)); blocks.append(bb)
+            elif not is_contains and not want:
+                edges.append((bb, fal)); blocks.append(bb)
+            elif not is_contains and want and fs == {flag}:
+                edges.append((bb, tru)); blocks.append(bb)
     return edges, blocks
